@@ -144,7 +144,14 @@ func (propC02) Gen(r *Rng, run uint64, tier string) *Plan {
 	end := start + 1 + r.Int63n(90*sec)
 	rng := []int64{5 * sec, 30 * sec, 60 * sec, 120 * sec}[r.Intn(4)]
 	off := []int64{0, 0, 10 * sec, 60 * sec}[r.Intn(4)]
-	kind := []string{"log_range", "log_range", "log_instant", "metric_range", "metric_instant"}[r.Intn(5)]
+	kind := []string{"log_range", "log_range", "log_instant", "metric_range", "metric_instant", "metric_binop"}[r.Intn(6)]
+	var msB []Matcher
+	if kind == "metric_binop" {
+		for k := []int{0, 1, 1, 2}[r.Intn(4)]; k > 0; k-- {
+			msB = append(msB, genMatcher(r.Sub(fmt.Sprint("mb", k)), &p.World))
+		}
+		p.Tags["matchers_b"] = mustJSON(msB)
+	}
 	p.Tags["kind"] = kind
 	p.Params = Params{Start: start, End: end, StepNs: int64(1+r.Intn(20)) * sec, Limit: -1}
 	if r.Bool(0.5) {
@@ -152,11 +159,14 @@ func (propC02) Gen(r *Rng, run uint64, tier string) *Plan {
 	}
 	_ = sel
 	p.Query = c02Query(ms, kind, rng, off)
+	if kind == "metric_binop" {
+		p.Query = c02Query(ms, "metric_range", rng, off) + " + " + c02Query(msB, "metric_range", rng, off)
+	}
 	switch kind {
 	case "log_range":
 	case "log_instant":
 		p.Params.End, p.Params.StepNs = start, 0
-	case "metric_range":
+	case "metric_range", "metric_binop":
 		// Whole-second grid so that the metric evaluation itself stays off window edges.
 		p.Params.Start = start - start%sec
 		p.Params.End = p.Params.Start + int64(1+r.Intn(6))*p.Params.StepNs
@@ -167,7 +177,11 @@ func (propC02) Gen(r *Rng, run uint64, tier string) *Plan {
 	p.Tags["range"] = fmt.Sprint(rng)
 	p.Tags["offset"] = fmt.Sprint(off)
 	n := len(RefSelect(&p.World, ms))
-	p.Variants = []Variant{genVariant(r.Sub("variant"), []int{n}, -1, true, true)}
+	sizes := []int{n}
+	if kind == "metric_binop" {
+		sizes = append(sizes, len(RefSelect(&p.World, msB)))
+	}
+	p.Variants = []Variant{genVariant(r.Sub("variant"), sizes, -1, true, true)}
 	return p
 }
 
@@ -193,6 +207,9 @@ func (propC02) ShrinkCandidates(p *Plan) []*Plan {
 	fmt.Sscan(p.Tags["range"], &rng)
 	fmt.Sscan(p.Tags["offset"], &off)
 	var out []*Plan
+	if p.Tags["kind"] == "metric_binop" {
+		return nil
+	}
 	for i := range ms {
 		c := p.Clone()
 		rest := append(append([]Matcher(nil), ms[:i]...), ms[i+1:]...)
@@ -220,8 +237,9 @@ func floorSec(ns int64) int64 {
 var tokenRe = regexp.MustCompile(`^c(\d+)r(\d+)`)
 
 func (propC02) Check(t *testing.T, p *Plan, st *Stats) *Violation {
-	var ms []Matcher
+	var ms, msB []Matcher
 	mustUnJSON(p.Tags["matchers"], &ms)
+	mustUnJSON(p.Tags["matchers_b"], &msB)
 	kind := p.Tags["kind"]
 	var rng, off int64
 	fmt.Sscan(p.Tags["range"], &rng)
@@ -238,6 +256,20 @@ func (propC02) Check(t *testing.T, p *Plan, st *Stats) *Violation {
 	o := Exec(t, p, 0, ExecOpts{})
 	checkHarnessLimit(o)
 	want := RefSelect(&p.World, ms)
+	wantCount := map[string]int{}
+	for _, id := range want {
+		wantCount[id]++
+	}
+	nSel := 1
+	if kind == "metric_binop" {
+		nSel = 2
+		for _, id := range RefSelect(&p.World, msB) {
+			if wantCount[id] == 0 {
+				want = append(want, id)
+			}
+			wantCount[id]++
+		}
+	}
 	if st != nil {
 		st.NoteOutcome(o)
 		if len(p.World.Containers) > 0 && len(ms) > 0 {
@@ -274,11 +306,13 @@ func (propC02) Check(t *testing.T, p *Plan, st *Stats) *Violation {
 		return viol("C02(hang)", "evaluation returns", "evaluation never returned")
 	}
 	// (a) one listing per selection, asking for all containers.
-	if len(o.Lists) != 1 {
-		return viol("C02(a:list)", "exactly one ContainerList call", fmt.Sprintf("%d calls", len(o.Lists)))
+	if len(o.Lists) != nSel {
+		return viol("C02(a:list)", fmt.Sprintf("exactly one ContainerList call per selection (%d)", nSel), fmt.Sprintf("%d calls", len(o.Lists)))
 	}
-	if !o.Lists[0].All || o.Lists[0].Limit != 0 || o.Lists[0].Filters != 0 {
-		return viol("C02(a:list)", "ContainerList over all containers (All=true, no limit, no filter)", fmt.Sprintf("%+v", o.Lists[0]))
+	for _, lc := range o.Lists {
+		if !lc.All || lc.Limit != 0 || lc.Filters != 0 {
+			return viol("C02(a:list)", "ContainerList over all containers (All=true, no limit, no filter)", fmt.Sprintf("%+v", lc))
+		}
 	}
 	// (b) exactly the reference selection receives a log request, once each.
 	got := map[string]int{}
@@ -288,9 +322,9 @@ func (propC02) Check(t *testing.T, p *Plan, st *Stats) *Violation {
 	wantSet := map[string]bool{}
 	for _, id := range want {
 		wantSet[id] = true
-		if got[id] != 1 {
+		if got[id] != wantCount[id] {
 			c := p.World.Find(id)
-			return viol("C02(b:selection)", fmt.Sprintf("container %s %s is selected by %s (one log request)", id, RenderLabels(c.RefLabels()), SelectorString(ms)),
+			return viol("C02(b:selection)", fmt.Sprintf("container %s %s is selected by %d of the selections %s %s (one log request each)", id, RenderLabels(c.RefLabels()), wantCount[id], SelectorString(ms), p.Tags["matchers_b"]),
 				fmt.Sprintf("%d log requests for it; requested: %v", got[id], sortedKeys(got)))
 		}
 	}
@@ -315,7 +349,7 @@ func (propC02) Check(t *testing.T, p *Plan, st *Stats) *Violation {
 		sinceLo, sinceHi, until = p.Params.Start, p.Params.Start, p.Params.End
 	case "log_instant":
 		sinceLo, sinceHi, until = p.Params.Start+lookback, p.Params.Start+lookback, p.Params.End
-	case "metric_range":
+	case "metric_range", "metric_binop":
 		sinceLo, sinceHi, until = p.Params.Start-rng-off, p.Params.Start-rng-off, p.Params.End-off
 	case "metric_instant":
 		sinceLo, sinceHi, until = p.Params.Start-rng-off+lookback, p.Params.Start-rng-off, p.Params.End-off
@@ -379,6 +413,37 @@ func (propC02) Check(t *testing.T, p *Plan, st *Stats) *Violation {
 		if st != nil {
 			st.ProbeIf(checked > 0, "origin_checked")
 			st.ProbeIf(checked > 0 && nonIdentity, "origin_checked_under_nonidentity_release")
+		}
+	}
+	if kind == "metric_range" || kind == "metric_instant" {
+		// Ungrouped range aggregation: a series carries the labels of its samples,
+		// and the line (label msg) identifies the origin.
+		if o.Result == nil {
+			return viol("C02(d:origin)", "a metric result", o.Result.Summary())
+		}
+		checked := 0
+		for _, s := range o.Result.Series {
+			m := tokenRe.FindStringSubmatch(s.Labels["msg"])
+			if m == nil {
+				continue
+			}
+			var ci int
+			fmt.Sscan(m[1], &ci)
+			if ci >= len(p.World.Containers) {
+				continue
+			}
+			c := &p.World.Containers[ci]
+			ref := c.RefLabels()
+			for _, k := range sortedKeys(ref) {
+				if s.Labels[k] != ref[k] {
+					return viol("C02(d:origin)", fmt.Sprintf("the series of line %q of container %s carries %s=%q", clip(s.Labels["msg"], 40), c.ID, k, ref[k]),
+						fmt.Sprintf("%s=%q (series %s)", k, s.Labels[k], clip(s.Key, 300)))
+				}
+			}
+			checked++
+		}
+		if st != nil {
+			st.ProbeIf(checked > 0, "origin_checked_on_series")
 		}
 	}
 	return nil
